@@ -57,7 +57,8 @@ fn main() {
                 if ok && !drift && !full { r = json!({"id": b["id"], "ok": true}); } else { r["beh"] = b.clone(); }
                 writeln!(out, "{}", r).unwrap();
             }
-            writeln!(out, "{}", json!({"summary": true, "behaviours": n, "steps": nsteps, "failed": nfail, "drifting": ndrift})).unwrap();
+            writeln!(out, "{}", json!({"summary": true, "behaviours": n, "steps": nsteps, "failed": nfail, "drifting": ndrift,
+                "wrapped_deques": codec::WRAPPED_DEQUES.load(std::sync::atomic::Ordering::Relaxed)})).unwrap();
         }
         "cases" => {
             let shapes: Vec<J> = serde_json::from_str(&std::fs::read_to_string(arg_str(&a, "shapes", "")).expect("read --shapes")).expect("shapes json");
@@ -123,7 +124,8 @@ fn main() {
                 line["b"] = r_bytes(&line, bytes_before, bytes);
                 writeln!(out, "{}", line).unwrap();
             }
-            writeln!(out, "{}", json!({"summary": true, "behaviours": n - skip.min(n), "cases": ncases, "steps": nsteps, "encodes": nenc, "decodes": ndec, "bytes": bytes})).unwrap();
+            writeln!(out, "{}", json!({"summary": true, "behaviours": n - skip.min(n), "cases": ncases, "steps": nsteps, "encodes": nenc, "decodes": ndec, "bytes": bytes,
+                "wrapped_deques": codec::WRAPPED_DEQUES.load(std::sync::atomic::Ordering::Relaxed)})).unwrap();
         }
         "sweep" => {
             let n = arg_u64(&a, "n", 20000) as usize;
